@@ -381,6 +381,35 @@ func runCheck(repo, prop, tier string, opt Options, verbose bool) int {
 			printFnResult(r, false)
 		}
 	}
+	// thorough tier: the executable form of every contract is also run against the real functions over the bounded
+	// domains (validates the specifications and the engine against the code that runs)
+	execRuns, execFns := 0, 0
+	if opt.Thorough {
+		for _, r := range results {
+			con := w.Contracts[r.Key]
+			if con == nil || r.Err != "" {
+				continue
+			}
+			fb := w.boundedStandIn(r.Key, con, prop)
+			if fb == nil {
+				continue
+			}
+			execFns++
+			execRuns += fb.Runs
+			for _, f := range fb.Fails {
+				if f.Kind == "ensures" && !hasProp(obligationProps(con, "ensures["+f.Clause+"]"), prop) {
+					continue
+				}
+				total++
+				ob := "ensures[" + f.Clause + "]"
+				if f.Kind == "panic" {
+					ob = "safe:panic"
+				}
+				violationReplay(r.Key, ob, f, "the executable form of the contract fails on the real code although the obligation was discharged: specification or engine error")
+				break
+			}
+		}
+	}
 	level := propLevel(prop)
 	ev := evidence{PropertyID: prop, Tier: tier, Seed: seed, Level: level, WallS: time.Since(t0).Seconds(), Violations: violations}
 	ev.Coverage = map[string]interface{}{
@@ -394,6 +423,10 @@ func runCheck(repo, prop, tier string, opt Options, verbose bool) int {
 		"solver_time_ms":           solverTime,
 		"samples":                  samples,
 		"explanation":              propExplanation(prop),
+	}
+	if opt.Thorough {
+		ev.Coverage["executable_contract_runs"] = execRuns
+		ev.Coverage["executable_contract_functions"] = execFns
 	}
 	ev.Assumptions = propAssumptions(w, prop, keys)
 	os.MkdirAll(filepath.Join(outDir(), "evidence"), 0o755)
